@@ -73,7 +73,7 @@ from ..domains import w4_c15 as W4
 TWO_HASH_SEEDS = ('thorough',)   # tiers in which the space is walked under a second PYTHONHASHSEED
 LEVEL = 'model_checking'
 FRESH_WORKERS = True     # one process per shard: process-wide state is part of the state
-DEPTH = {'quick': 4, 'thorough': 6}
+DEPTH = {'quick': 4, 'thorough': 5}
 SEQ_LEN = {'quick': 2, 'thorough': 3}
 BOUND = {t: 'universes: 2 synthetic libraries (one with an include and '
             'uncertainty data)%s x molecule pairs; <= 2 library objects, <= 2 '
